@@ -15,6 +15,10 @@ Handshakes: line-number mode (the device is silent until it answers the probe `G
 twice) and no-line-number mode (`grbl`: the device greets with `Grbl …` as soon as the port is open, printcore
 sends no `M110` and connect() returns on the `ok` of the probe, which is released like any other line - late).
 
+Socket scripts may release a line in two TCP segments more than the device's read time-out apart (`F <cut>`; for the
+model the same step as `R`: a line is delivered when it is complete, event `rel` is logged with the completing segment).
+A call that only comes back because cleanup() set the writer's events is logged as `ret-forced`, i.e. never completed.
+
 The oracle works on the event log only (independent of the model).
 """
 from __future__ import annotations
@@ -53,6 +57,10 @@ SURPLUS_OK = ["ok", "ok", "ok T:22.0 /0.0", "Ok"]
 UNSOLICITED = ["ALARM:1", "Alarm: hard limit", "error:9", "!! kill() called", "Error:Heating failed, system stopped!"]
 BAD = ["error: checksum mismatch", "Error:Printer halted. kill() called!", "Alarm: hard limit", "ALARM:1",
        "!! fatal", "error:20"]
+# every spelling the statement names: the keyword in any case, bare or followed by text
+ERR_WORDS = ("error", "alarm", "!!")
+ERR_TAILS = ["", "", ":1", ":20", ": checksum mismatch", ":Printer halted. kill() called!", " hard limit",
+             " Move out of range: 0.000 0.000 1000.000 [0.000]", " fatal"]
 GREETINGS = ["Grbl 1.1h ['$' for help]", "Grbl 0.9j ['$' for help]", "Grbl 1.1f ['$' for help]"]
 COMPARE_LIVE = ("noop", "phase", "online", "printing", "clear", "w", "ack", "err", "priq", "tx", "out", "draise", "ln")
 COMPARE_HALTED = ("noop", "phase", "tx", "out", "draise")
@@ -94,6 +102,19 @@ def report_line(rng, ok: bool) -> str:
 
 
 # ------------------------------------------------------------------ generation
+def error_line(rng) -> str:
+    """A reply that starts with error, alarm or !! (any case), with or without text after the keyword."""
+    word = rng.choice(ERR_WORDS)
+    style = rng.choice(["lower", "upper", "capital", "mixed"])
+    if style == "upper":
+        word = word.upper()
+    elif style == "capital":
+        word = word.capitalize()
+    elif style == "mixed":
+        word = "".join(ch.upper() if rng.random() < 0.5 else ch for ch in word)
+    return word + rng.choice(ERR_TAILS)
+
+
 def gen_stmt(rng, k):
     body = rng.choice([f"G1 X{k} Y{rng.randint(0, 99)} F{rng.choice([600, 1200])}", f"G0 Z{k}.5", f"M104 S{200 + k}",
                        f"M105 ; poll {k}", f"G92 E{k}", f"M117 msg {k} ok", f"G4 P{k + 1}"])
@@ -118,7 +139,7 @@ def gen_script(rng, handshake: bool, allow_temp: bool, p_err: float):
             lines.append((rng.choice(STATUS), False))
     if rng.random() < p_err:
         term = "b"
-        lines.append((rng.choice(BAD), True))
+        lines.append((rng.choice(BAD) if rng.random() < 0.4 else error_line(rng), True))
     else:
         term = "o"
         if not handshake and rng.random() < 0.35:
@@ -200,7 +221,7 @@ def gen_case(rng, kind="serial", flavour=None, timeout=None, grbl=False):
     return case
 
 
-def gen_gated_case(rng, hit: bool, grbl: bool = False):
+def gen_gated_case(rng, hit: bool, grbl: bool = False, kind: str = "serial"):
     """The caller starts each call only when told to (`W`), so lines can be delivered *between* two calls.
     hit=False: surplus `ok` / unsolicited error lines are queued behind a statement's terminal reply and are
     therefore read while the caller is idle (harmless on the repaired code; the next call must raise a stored
@@ -217,7 +238,8 @@ def gen_gated_case(rng, hit: bool, grbl: bool = False):
 
     def push_op(kind=None):
         kind = kind or rng.choice("ob")
-        return ["X", kind, rng.choice(SURPLUS_OK if kind == "o" else UNSOLICITED)]
+        return ["X", kind, rng.choice(SURPLUS_OK) if kind == "o" else
+                rng.choice(UNSOLICITED) if rng.random() < 0.5 else error_line(rng)]
 
     hit_at = rng.randrange(n) if hit else None
     k = 0
@@ -248,12 +270,67 @@ def gen_gated_case(rng, hit: bool, grbl: bool = False):
         ops.append(["W"])
     ops += [["D", "-", "o", [("ok", False)]], ["R"], ["settle"]]
     stmts = [gen_stmt(rng, j) for j in range(n)]
-    case = {"kind": "serial", "flavour": "surplus-hit" if hit else "gated", "n": n, "disc": disc, "gated": True,
+    case = {"kind": kind, "flavour": "surplus-hit" if hit else "gated", "n": n, "disc": disc, "gated": True,
             "stmts": stmts, "ops": ops}
     if grbl:
         case["grbl"] = True
         case["flavour"] = "grbl-" + case["flavour"]
     return case
+
+
+def fragment(rng, case, k=2):
+    """Socket only: up to `k` of the lines released after the handshake reach the host in two TCP segments with a
+    pause longer than the device's read time-out in between (`F <cut>` instead of `R`; the same step for the model:
+    a line is delivered when it is complete).  Lines that carry a reading or are somebody's terminal reply are
+    preferred; the cut position is uniform over the line."""
+    n_hs = sum(1 for op in case["ops"] if op[0] == "P") + (1 if case.get("grbl") else 3)
+    wire, cands, seen = [], [], 0
+    for i, op in enumerate(case["ops"]):
+        if op[0] == "D":
+            wire += [(seen >= n_hs, text, j == len(op[3]) - 1) for j, (text, _) in enumerate(op[3])]
+            seen += 1
+        elif op[0] == "X":
+            wire.append((seen >= n_hs, op[2], False))
+        elif op[0] == "G":
+            wire.append((False, op[1], False))
+        elif op[0] == "R" and wire:
+            stmt, text, terminal = wire.pop(0)
+            if stmt and len(text) >= 2:
+                cands.append((i, text, 3 if readings_of(text) else 2 if terminal else 1))
+    chosen = []
+    while cands and len(chosen) < k:
+        pick = rng.choices(cands, [c[2] for c in cands])[0]
+        cands.remove(pick)
+        chosen.append(pick)
+    ops = [list(op) for op in case["ops"]]
+    for i, text, _ in chosen:
+        ops[i] = ["F", str(rng.randint(1, len(text) - 1))]
+    out = dict(case, ops=ops)
+    out["flavour"] = case["flavour"] + "+fragmented"
+    return out
+
+
+def fragmented_cases(rng, n):
+    """clean socket scripts (two out of three) and gated ones (surplus ok / unsolicited error lines read between two
+    calls), each with two lines split"""
+    return [fragment(rng, gen_gated_case(rng, hit=False, kind="socket") if k % 3 == 2 else
+                     gen_case(rng, kind="socket", flavour="clean")) for k in range(n)]
+
+
+def fragmented_corpus():
+    """Hand-written members of the family: a position report cut inside a number (the reading is requested by the
+    statement before), and an error reply cut inside its keyword, Klipper style (`!! ...` then `ok`, the ok read
+    before the caller's next call)."""
+    ok = [("ok", False)]
+    hs = [["start"]] + [["D", "-", "o", ok], ["R"]] * 3
+    a = {"kind": "socket", "flavour": "clean+fragmented", "n": 2, "disc": True, "stmts": ["M114\n", "G1 X5 Y5\n"],
+         "ops": hs + [["D", "s", "o", [("X:123.5 Y:7.0 Z:0.0 E:0.0 Count X:1 Y:7 Z:8", False), ("ok", False)]], ["F", "4"],
+                      ["R"], ["D", "-", "o", ok], ["R"], ["D", "-", "o", ok], ["R"], ["settle"]]}
+    b = {"kind": "socket", "flavour": "gated+fragmented", "n": 2, "disc": True, "gated": True,
+         "stmts": ["G1 X500\n", "G1 X5\n"],
+         "ops": hs + [["W"], ["D", "-", "b", [("!! Move out of range", True)]], ["X", "o", "ok"], ["F", "1"], ["R"],
+                      ["W"], ["D", "-", "o", ok], ["R"], ["W"], ["D", "-", "o", ok], ["R"], ["settle"]]}
+    return [a, b]
 
 
 def exhaustive_cases():
@@ -288,7 +365,7 @@ def model_lines(case):
     out = [f"cfg writes={case['n']} disc={1 if case['disc'] else 0} gated={1 if case.get('gated') else 0}"]
     for op in case["ops"]:
         out.append(" ".join(op[:3]) if op[0] == "D" else " ".join(op[:2]) if op[0] == "X" else
-                   "settle" if op[0] == "Z" else op[0])   # `G <text>` -> `G`
+                   "settle" if op[0] == "Z" else "R" if op[0] == "F" else op[0])   # `G <text>` -> `G`
     return out
 
 
@@ -321,7 +398,7 @@ def run_case(case, expected, timeout=1.5, settle=0.012):
     try:
         for i, op in enumerate(case["ops"]):
             want = project(expected[i + 1]) if expected else None
-            if op[0] in "PDRLXG" and S.snapshot()["phase"] in ("failed", "disconnected"):
+            if op[0] in "PDRFLXG" and S.snapshot()["phase"] in ("failed", "disconnected"):
                 did = False  # the writer's device object is gone: nothing can be observed any more
             elif op[0] == "start":
                 t_end = time.time() + 3.0
@@ -334,6 +411,8 @@ def run_case(case, expected, timeout=1.5, settle=0.012):
                 did = S.consume([tuple(x) for x in op[3]])
             elif op[0] == "R":
                 did = S.release()
+            elif op[0] == "F":
+                did = S.release_split(int(op[1]))
             elif op[0] == "L":
                 did = S.lose()
             elif op[0] == "X":
@@ -503,8 +582,9 @@ def oracle(case, ev):
             c = ev[nxt]
             raised = (c[0] == "ret" and c[2] != "returned") or (c[0] == "disc-ret" and c[1]) or c[0] == "connect-raised"
             if not raised:
-                what = {"ret": f"write({c[1]}) returned normally", "disc-ret": "disconnect(wait=True) returned normally",
-                        "connected": "connect() returned normally"}[c[0]]
+                # (`connected` events carry no argument: build only the text that applies)
+                what = (f"write({c[1]}) returned normally" if c[0] == "ret" else
+                        "disconnect(wait=True) returned normally" if c[0] == "disc-ret" else "connect() returned normally")
                 fails.append(("error-dropped", f"the device reported {e[2]!r}; the caller's next call to complete did not "
                               f"raise it: {what}"))
     # (2b) readings: when write() returns, get_parameter() gives, for every key, the value of the last report
@@ -633,6 +713,8 @@ def run_batch(R, cases, label, listed, compare=True):
         terms = sum(1 for e in ev if e[0] == "rel" and e[3])
         R.case(case_repr(case), nontrivial=(terms >= 4 and any(e[0] == "ret" for e in ev)))
         for e in ev:
+            if e[0] == "seg":
+                R.count("released:in-two-segments")
             if e[0] == "rel":
                 R.count("released:" + ("error" if e[4] else "ok" if e[3] else "greeting" if len(e) > 5 and e[5] == "g" else
                                        "T-line" if "T:" in e[2] else "status"))
@@ -899,8 +981,9 @@ WITNESSES = {FID_BACKLOG: witness_backlog, FID_SURPLUS: witness_surplus}
 # ------------------------------------------------------------------ entry points
 def run(R: core.Run):
     R.rule = ("release scripts: 1-5 statements x per-command reply scripts (0-3 status/T: lines, some with 'ok' inside a "
-              "word, then ok-variant or error/alarm/!! terminal) x random interleaving of device consumption and line "
-              "release x optional connection loss x optional disconnect(wait=True) x handshake (line numbers: silent device, two "
+              "word, then ok-variant or error/alarm/!! terminal - keyword in any case, bare or followed by text) x random interleaving of device consumption and line "
+              "release x optional connection loss x optional disconnect(wait=True) x (socket) reply lines arriving in two segments "
+              "more than the read time-out apart x handshake (line numbers: silent device, two "
               "M110; no line numbers: 'Grbl ...' greeting first, the probe's ok released later like any line); gated scripts: the caller starts each "
               "call on command, surplus ok / unsolicited error lines queued behind a reply are read between two calls; non-trivial = at least 4 terminal "
               "replies released and at least one write completed; distinct by hash")
@@ -956,6 +1039,9 @@ def run(R: core.Run):
                      grbl=(k == 1 or R.rng.random() < 0.2))   # at least one networked controller greets
         sock_cases.append(c)
     run_batch(R, sock_cases, "socket", listed)
+    # reply lines that reach the host in two TCP segments, more than the device's read time-out apart (each such
+    # release costs about 0.3 s: few cases, two split lines each)
+    run_batch(R, fragmented_corpus() + fragmented_cases(R.rng, R.n(3, 24)), "socket-fragmented", listed)
     sub_delay(R, listed)
     sub_held(R)
     if R.thorough:
@@ -977,6 +1063,7 @@ def run(R: core.Run):
         extra += [gen_case(R.rng, flavour="clean", grbl=True) for _ in range(R.n(4, 16))]
         extra += [gen_gated_case(R.rng, hit=False) for _ in range(R.n(10, 40))]
         extra += [gen_case(R.rng, flavour="clean", timeout=0.05) for _ in range(R.n(4, 12))]
+        extra += fragmented_cases(R.rng, R.n(3, 10))
         run_batch(R, extra, "search", listed, compare=False)
         sub_delay(R, listed)
     logging.disable(logging.NOTSET)
